@@ -32,6 +32,11 @@ CLAIMS.update({
     "C18": ("regex syntax-tree queries (anchoring, finite language) + dominating-condition check at the collection point + call order", "The suffix pattern template is end-anchored per alternative, its default alternative is exactly the finite documented suffix list in both letter cases, user suffixes pass re.escape on both construction paths, the pattern is applied with search() to bare directory entries; every append to the start-up file list is dominated by all four filters; directory discovery guards, root-relative glob expansion, directories-only, subtraction after expansion, and the initialize call order are checked. Not decided: the resulting file set on a concrete directory tree."),
 })
 
+CLAIMS.update({
+    "C02": ("regex-language enumeration of the line splitter, def-use/shape matching of the splice, dominators in the edit routine", "Decides: the splitter's language is exactly {LF, CRLF, CR} with CRLF consumed as one, on both ingestion paths; trailing-newline fix-up agrees with the splitter; every buffer mutation keeps contents_pp/nLines in step and is dominated by the hash reset; changes applied forwards, once, abort on failure; splice provenance (prefix ends at range start, suffix starts at range end, strict copy condition). Not decided: the splice arithmetic for every range (value-level)."),
+    "C03": ("interprocedural dominating-facts analysis (nullability, non-emptiness), def-use taint into regex sinks, regex-tree ambiguity query, loop-progress check on per-loop CFGs", "Decides four mechanisms by which text kills this parser: parser state that is None outside constructs is never dereferenced unguarded (with lock-step twin, establishing calls, caller obligations, result-conditioned summaries); constant end-subscripts on possibly empty text are guarded; document/option text reaches no pattern unescaped and no replacement template unescaped, no pattern has ambiguous nested unbounded repetition; every while loop of the indexing code has a progress statement on every cycle. Not decided: absence of every other exception, concrete time bounds."),
+})
+
 NA_REASON = "check under construction in this round (rules designed in DESIGN.md section 3, not yet implemented); will move to checks once its rules run"
 
 
